@@ -3,7 +3,8 @@
    bounds-checked model of kernel K on complete arguments and answers 1 iff it finished without an
    out-of-range access (the instance of the safety theorem, used as a cross-check). *)
 From Coq Require Import ZArith List Bool.
-From Centro Require Import Base.Sx Base.ArrC19 Model.MorphC19.
+From Centro Require Model.ReconC19.
+From Centro Require Import Base.Sx Base.ArrC19 Model.MorphC19 Model.HeapC19 Model.LapC19.
 Import ListNotations.
 Open Scope Z_scope.
 
@@ -20,6 +21,15 @@ Definition entry_pre (x : sx) : sx :=
   | 3 => (zlen (as_Zs (a 5%nat)) =? zlen (as_Zs (a 6%nat))) &&
          kernel_pre_il (as_Z (a 1%nat)) (as_Z (a 2%nat)) (as_Z (a 3%nat)) (as_Z (a 4%nat))
            (zip_pts (as_Zs (a 5%nat)) (as_Zs (a 6%nat)))
+  (* 4: grey_reconstruction_loop (H W p0 p1 values prev next strides current image_stride) *)
+  | 4 => ReconC19.kernel_pre_recon (as_Z (a 1%nat)) (as_Z (a 2%nat)) (as_Z (a 3%nat)) (as_Z (a 4%nat))
+           (as_Zs (a 5%nat)) (as_Zs (a 6%nat)) (as_Zs (a 7%nat)) (as_Zs (a 8%nat)) (as_Z (a 9%nat)) (as_Z (a 10%nat))
+  (* 5: propagate (rows width pq.size m n coord_i coord_j ((m n) ...)) *)
+  | 5 => kernel_pre_propagate (as_Z (a 1%nat)) (as_Z (a 2%nat)) (as_Z (a 3%nat)) (as_Z (a 4%nat)) (as_Z (a 5%nat))
+           (as_Zs (a 6%nat)) (as_Zs (a 7%nat)) (as_pairs (a 8%nat))
+  (* 6: augmenting_row_reduction (n ii jj idx count y |x| |u| |v| |c|) *)
+  | 6 => kernel_pre_arr (as_Z (a 1%nat)) (as_Zs (a 2%nat)) (as_Zs (a 3%nat)) (as_Zs (a 4%nat)) (as_Zs (a 5%nat))
+           (as_Zs (a 6%nat)) (as_Z (a 7%nat)) (as_Z (a 8%nat)) (as_Z (a 9%nat)) (as_Z (a 10%nat))
   | _ => false
   end.
 
